@@ -33,14 +33,29 @@ func (g *Gen) Reassign(tree *Node, o ReassignOpts) *Node {
 	eq := map[string]string{}
 	longDone := false
 	cross := ""
+	crossEmail := false
 	if o.Mode == CrossEqual {
 		// the shared value looks like an ObjectId half of the time: an ordinary
 		// string field holding a hex id is everyday data
-		if g.chance(0.5) {
+		switch g.R.Intn(3) {
+		case 0:
 			cross = g.OID()
-		} else {
+		case 1:
 			cross = g.Dress("ascii")
+		default:
+			// e-mail-shaped: a member of the classes "value under $date / $oid / $binary.base64" (those
+			// are positional) and of the e-mail class, but not of the ordinary-string class
+			cross = g.Email()
+			crossEmail = true
 		}
+	}
+	odd := func(n *Node) bool {
+		// Meta mode: the value under a typed wrapper is any string at all
+		if o.Mode == Meta && g.chance(0.5) {
+			n.S = g.pick(g.Email(), g.Dress("escape"), g.Dress("unicode"), g.Token(), "")
+			return true
+		}
+		return false
 	}
 	t.Walk(nil, func(_ []string, n *Node) {
 		if n.T == nil {
@@ -66,7 +81,11 @@ func (g *Gen) Reassign(tree *Node, o ReassignOpts) *Node {
 			_ = suffix
 			switch o.Mode {
 			case CrossEqual:
-				n.S = cross
+				if crossEmail {
+					n.S = prefix + g.nonEmailString()
+				} else {
+					n.S = cross
+				}
 			case AllEqual:
 				if v, ok := eq["str"]; ok {
 					n.S = v
@@ -103,20 +122,29 @@ func (g *Gen) Reassign(tree *Node, o ReassignOpts) *Node {
 				return
 			}
 			n.S = g.Email()
+			if crossEmail {
+				n.S = cross
+			}
 		case "date":
 			n.S = g.ISODate()
 			if cross != "" {
 				n.S = cross
+			} else {
+				odd(n)
 			}
 		case "oid":
 			n.S = g.OID()
 			if cross != "" {
 				n.S = cross
+			} else {
+				odd(n)
 			}
 		case "b64":
 			n.S = g.B64()
 			if cross != "" {
 				n.S = cross
+			} else {
+				odd(n)
 			}
 		case "num":
 			if o.Numbers && n.K == Num {
